@@ -33,7 +33,9 @@ def handleBlock (args : List String) : String :=
     let c := hx content
     let isHttp := parseBool (kvGet kv "http" "f")
     let src := kvGet kv "src" "built"
-    let head := if isHttp then (headerBytes c).1 else []
+    -- newHttpBlock with the syntax repair on: a head without its terminating blank line gets a CRLF appended
+    let fix := parseBool (kvGet kv "fix" "f") && (src == "built" || src == "parsed")
+    let head := if isHttp then (if !(headerBytes c).2.2 && fix then (headerBytes c).1 ++ crlf else (headerBytes c).1) else []
     let payload := if isHttp then (headerBytes c).2.1 else c
     let viaApi := src == "built" || src == "parsed"
     let st0 : BlkSt := { head := head, payload := payload, isHttp := isHttp,
